@@ -387,6 +387,57 @@ theorem C04_irrelevant_change (o : Oracle) (ops : List Op) (hg : GoodHistory ops
           rw [C04_irrelevant_change_remove o _ hI.wf f.host ds l hs p f.method host qds ql hq hne1 hne2 path method]
 
 
+/-! ### listener glue: HSTS refresh, `Host` / `:authority` parsing, proxy-level refusals -/
+
+/-- C04 (a listener-default HSTS patch does not change routing): after
+    `refresh_inheriting_hsts` — on any router state, for any request — the
+    same rule is selected and its routing decision (cluster, redirect policy
+    and scheme, template, rewrites, auth) is unchanged; only the response
+    header edits differ. -/
+theorem C04_hsts_refresh_preserves_route (o : Oracle) (edit : Bool) (s : Router) (host path method : Bytes) :
+    (lookupRoute o (refreshHsts edit s) host path method).map decision =
+      (lookupRoute o s host path method).map decision := by
+  rw [lookupRoute_refresh]
+  cases lookupRoute o s host path method with
+  | none => rfl
+  | some r => simp [decision_refreshRoute]
+
+/-- C04 (the request's host is the authority without its port): a `Host` /
+    `:authority` value `host:port` with a port in 1..65535 is routed exactly
+    like `host` by `frontend_from_request`. -/
+theorem C04_authority_port_irrelevant (o : Oracle) (l : Listener) (host digits : Bytes) (path method : Bytes)
+    (hne : host ≠ []) (hh : ∀ x ∈ host, isHostChar x = true)
+    (hd : ∀ x ∈ digits, isDigit x = true) (hdn : digits ≠ [])
+    (hv : 1 ≤ digitsVal digits ∧ digitsVal digits ≤ 65535) :
+    l.lookup o (host ++ 58 :: digits) path method = l.lookup o host path method ∧
+    l.lookup o host path method = some (lookup o l.fronts host path method) := by
+  simp [Listener.lookup, authorityHost_port host digits hne hh hd hdn hv, authorityHost_plain host hne hh]
+
+/-- C04 (what the proxy glue refuses leaves no trace): an HSTS block on a
+    plain-HTTP frontend, an invalid position, or an address without listener
+    are refused before the router is touched; every other add is exactly the
+    router's `add_http_front` (the plain-HTTP glue never marks HSTS as
+    inherited), and tags are only recorded on success. -/
+theorem C04_listener_add_is_router_add (o : Oracle) (l : Listener) (f : Front) (addr : Nat) :
+    (((!l.https && f.hsts.isSome) = true ∨ f.pos > 2 ∨ addr ≠ l.addr) → (l.add o f addr).1 = l) ∧
+    (¬ ((!l.https && f.hsts.isSome) = true ∨ f.pos > 2 ∨ addr ≠ l.addr) →
+      ((l.add o f addr).2 = .ok →
+        (l.add o f addr).1.fronts = (addFront o l.fronts (if l.https then f else { f with inherit := false })).1) ∧
+      ((l.add o f addr).2 ≠ .ok → (l.add o f addr).1 = l)) := by
+  constructor
+  · rintro (h | h | h)
+    · simp [Listener.add, h]
+    · by_cases h1 : (!l.https && f.hsts.isSome) = true <;> simp [Listener.add, h1, h]
+    · by_cases h1 : (!l.https && f.hsts.isSome) = true
+      · simp [Listener.add, h1]
+      · by_cases h2 : f.pos > 2 <;> simp [Listener.add, h1, h2, h]
+  · intro hn
+    have h1 : ¬ (!l.https && f.hsts.isSome) = true := fun h => hn (Or.inl h)
+    have h2 : ¬ f.pos > 2 := fun h => hn (Or.inr (Or.inl h))
+    have h3 : ¬ addr ≠ l.addr := fun h => hn (Or.inr (Or.inr h))
+    simp only [Listener.add, h1, Bool.false_eq_true, ↓reduceIte, h2, h3]
+    cases (addFront o l.fronts (if l.https = true then f else { f with inherit := false })).2 <;> simp
+
 /-! ### concrete data for regressions, counterexamples and non-vacuity -/
 
 def hAio : Bytes := [97, 46, 105, 111]            -- "a.io"
@@ -512,6 +563,21 @@ example : lookupRoute oNone (run oNone demoOps) hBaio pAb GET = some (.cluster [
 example : lookupRoute oAll (run oAll demoOps) hBaio pZ GET = lookupRoute oAll (run oAll demoOps') hBaio pZ GET := by
   rw [C04_route_is_spec_unique oAll demoOps (by decide) hBaio (by decide) pZ GET (some (.cluster [4])) (by decide),
       C04_route_is_spec_unique oAll demoOps' (by decide) hBaio (by decide) pZ GET (some (.cluster [4])) (by decide)]
+-- the listener theorems on concrete values: `a.io:8080` is routed like `a.io`; a refresh keeps the decision
+example : authorityHost (hAio ++ 58 :: [56, 48, 56, 48]) = some hAio ∧ authorityHost (hAio ++ [58, 48]) = none
+    ∧ authorityHost (hAio ++ [58]) = none ∧ authorityHost [58, 56, 48] = none := by decide
+example : (∀ x ∈ hAio, isHostChar x = true) ∧ (∀ x ∈ [56, 48, 56, 48], isDigit x = true)
+    ∧ digitsVal [56, 48, 56, 48] = 8080 := by decide
+example : (lookupRoute oAll (refreshHsts true (run oAll demoOps)) hBaio pAb GET).map decision
+    = (lookupRoute oAll (run oAll demoOps) hBaio pAb GET).map decision :=
+  C04_hsts_refresh_preserves_route oAll true (run oAll demoOps) hBaio pAb GET
+example : (lookup oNone (refreshHsts true (run oNone demoOps)) hBaio pAb GET).map (·.cluster) = some (some [3]) := by decide
+example : (lookup oNone (refreshHsts true (run oNone demoOps)) hBaio pAb GET).map (·.nresp) = some 1
+    ∧ (lookup oNone (run oNone demoOps) hBaio pAb GET).map (·.nresp) = some 0 := by decide
+example : ((Listener.new false 0).add oAll { fr hAio 0 pSlash none 1 with hsts := some (true, true) } 0).2 = LOut.errHsts
+    ∧ ((Listener.new false 0).add oAll (fr hAio 0 pSlash none 1) 1).2 = LOut.errNoListener
+    ∧ ((Listener.new false 0).add oAll (fr hAio 0 pSlash none 1) 0).2 = LOut.ok := by decide
+
 -- an irrelevant tree frontend (host `a.io` vs request host `b.a.io`), and the F30 shape which is *not* irrelevant
 example : FrontIrrelevant oAll (fr hAio 0 pSlash none 9) hBaio pA GET := by
   have h : Spec.treeHostMatch oAll hAio hBaio = none := by decide
